@@ -517,12 +517,14 @@ type state struct {
 	rel  map[ssa.Value]relv
 	eof  int8 // is the seed error io.EOF?  0 unknown, 1 yes, 2 no
 
-	countReached  bool // passed "counter >= declared count" for a counter of the seed's loop, counter not advanced since the exhausted read
-	reentered     bool // a back edge of a loop containing the seed was taken after exhaustion
-	wrote         bool // append / slice element store since the exhausted read
-	consumed      bool // IO-4: passed the success side of an input site in this iteration
-	stickyChecked bool // STK-1: passed a checked Reader.Error()
-	stored        bool // PRE-2: an element of a pre-sized array was stored in this iteration
+	countReached  bool                // passed "counter >= declared count" for a counter of the seed's loop, counter not advanced since the exhausted read
+	reentered     bool                // a back edge of a loop containing the seed was taken after exhaustion
+	wrote         bool                // append / slice element store / use of bytes the failed read did not deliver, since the exhausted read
+	window        bool                // REC-WHOLE: a window of the read buffer proven to lie within the n bytes delivered was taken
+	le            map[ssa.Value]int64 // REC-WHOLE: root + le[root] <= n is known (n = byte count of the failed read; root nVal itself stands for constants)
+	consumed      bool                // IO-4: passed the success side of an input site in this iteration
+	stickyChecked bool                // STK-1: passed a checked Reader.Error()
+	stored        bool                // PRE-2: an element of a pre-sized array was stored in this iteration
 	exhausted     *site
 }
 
@@ -544,6 +546,12 @@ func (s *state) clone() *state {
 	for k, v := range s.rel {
 		c.rel[k] = v
 	}
+	if s.le != nil {
+		c.le = make(map[ssa.Value]int64, len(s.le))
+		for k, v := range s.le {
+			c.le[k] = v
+		}
+	}
 	return &c
 }
 
@@ -554,6 +562,12 @@ func (s *state) key() string {
 	}
 	for k, v := range s.keys {
 		parts = append(parts, k+"="+string(rune('0'+v)))
+	}
+	for k, v := range s.le {
+		parts = append(parts, k.Name()+"<="+itoa(int(v)))
+	}
+	if s.window {
+		parts = append(parts, "window")
 	}
 	for k, v := range s.rel {
 		a := itoa(int(v.off))
@@ -624,6 +638,9 @@ type explorer struct {
 	streaming bool               // no loop around the seed has a counter-controlled exit
 	countless bool               // the function belongs to a format that declares no record count (spec table)
 	stale     map[ssa.Value]bool // buffers handed to the seed call: their content is not input after the failed read
+	nVal      ssa.Value          // REC-WHOLE: the byte count result of the failed io.ReadFull / ReadAtLeast (bytes [0,n) of the buffer ARE input)
+	badUse    ssa.Instruction    // first use of the buffer not proven to lie within [0,n)
+	windows   int                // windows validated
 	fillArr   map[ssa.Value]bool // PRE-2: the pre-sized arrays of the fill loop
 	pre2ctr   *ssa.Phi           // PRE-3: the one counter whose increments must each store a record (nil: see pre2set)
 	pre2set   map[*ssa.Phi]bool  // PRE-2: the counters that bound the loop or subscript the stores (a line counter kept for messages is neither)
@@ -1181,7 +1198,27 @@ func (e *explorer) run() {
 func (e *explorer) block(it item) {
 	b, st := it.b, it.st
 	if it.idx == 0 {
+		// the block executes (again): what was learnt about the values it defines belongs to the previous execution
+		for _, in := range b.Instrs {
+			if _, isPhi := in.(*ssa.Phi); isPhi {
+				continue
+			}
+			if v, ok := in.(ssa.Value); ok {
+				delete(st.vals, v)
+				delete(st.rel, v)
+				delete(st.le, v)
+			}
+		}
 		if it.from != nil {
+			if len(st.le) > 0 {
+				for _, in := range b.Instrs {
+					p, isPhi := in.(*ssa.Phi)
+					if !isPhi {
+						break
+					}
+					delete(st.le, p)
+				}
+			}
 			e.assignPhis(b, it.from, st)
 		}
 		k := itoa(b.Index) + "#" + st.key()
@@ -1197,7 +1234,15 @@ func (e *explorer) block(it item) {
 			if _, isDbg := b.Instrs[i].(*ssa.DebugRef); !isDbg {
 				for _, op := range b.Instrs[i].Operands(opbuf[:0]) {
 					if *op != nil && e.stale[*op] {
+						if e.withinDelivered(b.Instrs[i], *op, st) {
+							st.window = true
+							e.windows++
+							continue
+						}
 						st.wrote = true
+						if e.badUse == nil {
+							e.badUse = b.Instrs[i]
+						}
 					}
 				}
 			}
@@ -1233,7 +1278,9 @@ func (e *explorer) block(it item) {
 			}
 		case *ssa.Call:
 			if ssau.Builtin(in) == "append" {
-				st.wrote = true
+				if !st.window {
+					st.wrote = true // data added that does not come out of a validated window of the delivered bytes
+				}
 				st.stored = true // PRE-2: the iteration recorded data
 				continue
 			}
@@ -1322,6 +1369,10 @@ func (e *explorer) block(it item) {
 				s2 := st.clone()
 				e.refine(in.Cond, true, st)
 				e.refine(in.Cond, false, s2)
+				if e.nVal != nil {
+					e.learnLE(in.Cond, true, st)
+					e.learnLE(in.Cond, false, s2)
+				}
 				take(0, st)
 				take(1, s2)
 			}
@@ -1338,10 +1389,142 @@ func (e *explorer) block(it item) {
 	}
 }
 
+// ---- REC-WHOLE: which bytes of the buffer did the failed read deliver --------------------------------
+
+func stripConv(v ssa.Value) ssa.Value {
+	for {
+		switch x := v.(type) {
+		case *ssa.Convert:
+			v = x.X
+		case *ssa.ChangeType:
+			v = x.X
+		default:
+			return v
+		}
+	}
+}
+
+// learnLE records, for a branch `X OP n` (n the byte count of the failed read, X = root + off), what the
+// side taken proves in the form root + k <= n.
+func (e *explorer) learnLE(cond ssa.Value, truth bool, st *state) {
+	for {
+		u, ok := cond.(*ssa.UnOp)
+		if !ok || u.Op != token.NOT {
+			break
+		}
+		truth = !truth
+		cond = u.X
+	}
+	b, ok := cond.(*ssa.BinOp)
+	if !ok {
+		return
+	}
+	op := b.Op
+	x, y := b.X, b.Y
+	switch {
+	case stripConv(y) == e.nVal:
+	case stripConv(x) == e.nVal:
+		x = y
+		switch op { // n OP X  ==  X OP' n
+		case token.LSS:
+			op = token.GTR
+		case token.LEQ:
+			op = token.GEQ
+		case token.GTR:
+			op = token.LSS
+		case token.GEQ:
+			op = token.LEQ
+		}
+	default:
+		return
+	}
+	if !truth {
+		switch op {
+		case token.LSS:
+			op = token.GEQ
+		case token.LEQ:
+			op = token.GTR
+		case token.GTR:
+			op = token.LEQ
+		case token.GEQ:
+			op = token.LSS
+		case token.EQL:
+			op = token.NEQ
+		case token.NEQ:
+			op = token.EQL
+		}
+	}
+	root, off, aff := affine(x, 0)
+	if !aff {
+		return
+	}
+	var k int64
+	switch op {
+	case token.LEQ, token.EQL:
+		k = off
+	case token.LSS:
+		k = off + 1
+	default:
+		return
+	}
+	key := e.nVal // constants: c <= n
+	if root != nil {
+		rv, isVal := root.(ssa.Value)
+		if !isVal {
+			return
+		}
+		key = rv
+	}
+	if st.le == nil {
+		st.le = map[ssa.Value]int64{}
+	}
+	if old, ok := st.le[key]; !ok || k > old {
+		st.le[key] = k
+	}
+}
+
+// withinDelivered: is this use of the buffer a window [lo, hi) / an element proven to lie within [0, n)?
+func (e *explorer) withinDelivered(in ssa.Instruction, buf ssa.Value, st *state) bool {
+	if e.nVal == nil || len(st.le) == 0 {
+		return false
+	}
+	var bound ssa.Value
+	var plus int64
+	switch x := in.(type) {
+	case *ssa.Slice:
+		if x.X != buf || x.High == nil {
+			return false
+		}
+		bound = x.High
+	case *ssa.IndexAddr:
+		if x.X != buf {
+			return false
+		}
+		bound, plus = x.Index, 1
+	default:
+		return false
+	}
+	root, off, aff := affine(bound, 0)
+	if !aff {
+		return false
+	}
+	key := e.nVal
+	if root != nil {
+		rv, isVal := root.(ssa.Value)
+		if !isVal {
+			return false
+		}
+		key = rv
+	}
+	k, ok := st.le[key]
+	return ok && off+plus <= k
+}
+
 func (e *explorer) atReturn(r *ssa.Return, st *state) {
 	if e.mode == modeIO4 || e.mode == modePRE2 {
 		return
 	}
+
 	var what av
 	switch {
 	case e.fi.errRes >= 0:
@@ -1380,7 +1563,7 @@ func (e *explorer) atReturn(r *ssa.Return, st *state) {
 	}
 	if e.mode == modeIO2 && e.countless && e.streaming && !st.wrote {
 		e.okReturns++
-		e.okFacts["count-less record stream: nothing appended/stored and the read buffer untouched after the failed read, return at "+e.a.p.Pos(posOfReturn(r))] = true
+		e.okFacts["count-less record stream: after the failed read nothing is appended/stored except out of buffer windows proven to lie within the bytes delivered, return at "+e.a.p.Pos(posOfReturn(r))] = true
 		return
 	}
 	how := ""
